@@ -117,9 +117,14 @@ def run(ctx: Ctx, rep: Report) -> None:
     rep.rule("C16-R3", "rows accumulate: get-or-create per row id, then the cell store", floor=2)
     rep.rule("C16-R4", "both variants consume the single-root (bulk) walk completely and in order", floor=4)
     rep.rule("C16-R5", "the wrapper keeps '0' and pythonises the other cells", floor=2)
+    rep.rule("C16-R6", "no cell from outside the table: the walk's containment / once-only filter (shared with C01-R1/R2)", floor=5)
     rep.assumptions += ["the walk delivers exactly the instances below the root (C01 / C02)", "table() is addressed by the entry OID and bulktable() by the table OID, as documented"]
     client = ctx.client()
     tab = ctx.fn(TABLIFY)
+    from .c01 import check_filter
+    from .walkmodel import WalkModel
+
+    check_filter(ctx, rep, WalkModel(ctx), r1="C16-R6", r2="C16-R6")
     # ------------------------------------------------------------ R1 / R4
     variants: List[Tuple[FuncInfo, ast.Call]] = []
     for meth in client.methods.values():
